@@ -205,6 +205,16 @@ class Axis(Node):
     def evaluate(
         self, node: _DocumentNode | NodeBase, namespaces: Namespaces
     ) -> Iterator[NodeBase]:
+        if isinstance(node, _DocumentNode) and self.generator.__name__ not in (
+            "child",
+            "descendant",
+            "descendant_or_self",
+            "self",
+        ):
+            # the root node has neither ancestors nor siblings
+            if self.generator.__name__ == "ancestor_or_self":
+                yield node
+            return
         yield from self.generator(node)
 
     def child(self, node: NodeBase) -> Iterator[NodeBase]:
@@ -389,7 +399,9 @@ class XPathExpression(Node):
         yielded_nodes: set[int] = set()
         for path in self.location_paths:
             for result in path.evaluate(node=node, namespaces=namespaces):
-                assert not isinstance(result, _DocumentNode)
+                if isinstance(result, _DocumentNode):
+                    # the root node can't be represented in a result
+                    continue
                 _id = id(result)
                 if _id not in yielded_nodes:
                     yielded_nodes.add(_id)
@@ -479,7 +491,11 @@ class NodeTypeTest(NodeTestNode):
         self.type_name = type_name
 
     def evaluate(self, node: NodeBase, namespaces: Namespaces) -> bool:
-        return _is_node_of_type(node, self.type_name) or isinstance(node, _DocumentNode)
+        return _is_node_of_type(node, self.type_name) or (
+            # the root node passes `node()` like tag nodes, but no other type test
+            self.type_name == "TagNode"
+            and isinstance(node, _DocumentNode)
+        )
 
 
 class ProcessingInstructionTest(NodeTypeTest):
